@@ -297,7 +297,10 @@ class Session:
                 dots = plain_lines(self.W, [Text("...", overflow="crop", justify="center", end="")])
                 lines = lines[:self.H - 1] + [dots[0] if dots else "..."]
             else:
+                # the whole frame is drawn although the screen is shorter: what scrolls out of the screen cannot be
+                # erased again (the documentation says so for "visible"; a Progress has no other way)
                 self.exempt = True
+                self.tall_frame = True
         return lines
 
     def _frame_obj_plain(self, lines):
@@ -417,6 +420,7 @@ class Session:
                 if self.cfg["transient"] or self.kind == "status":
                     if len(final) > self.H:
                         self.exempt = True
+                        self.tall_frame = True
                     elif len(final) == self.H:
                         # the frame fills the screen and stop() adds one more line before clearing upwards
                         self.full_height_transient_stop = True
@@ -490,6 +494,17 @@ class Session:
             self.ctx.mark_inconclusive("screen model met an unknown sequence %r" % self.screen.unknown[:2])
             return False
         if self.exempt:
+            if getattr(self, "tall_frame", False) and not getattr(self, "tall_reported", False):
+                # a frame taller than the screen under "visible" overflow (every Progress frame is drawn that way): the
+                # statement lists such frames, the library cannot clear them.  Reported once per history, when it shows,
+                # under a mechanism of its own; nothing further is asserted for this history.
+                got, want = self.screen.lines(), self.expected()
+                if got != want or self.screen.cursor_above_top:
+                    self.tall_reported = True
+                    self.ctx.violation("frame-taller-than-the-screen-cannot-be-cleared:%s" % self.kind,
+                                       {"config": self.cfg, "kind": self.kind, "log": log, "after": op,
+                                        "screen": got[-30:], "expected": want[-30:],
+                                        "cursor_up_clamped_at_viewport_top": self.screen.cursor_above_top})
             return True
         got = self.screen.lines()
         want = self.expected()
